@@ -305,8 +305,49 @@ def merge_cases():
     return out
 
 
+# ---- systematic collisions: every order and shape in which entries that are WRITTEN under the same key (or under
+# key and key|all) can meet in the merge loop of SigmaDetection.to_plain.  A slot is (source key variant, |all?);
+# all slots of a case are written as K or K|all.  Values are pairwise different, so a lost value changes the query.
+def collision_mappings(variants, chain, n_entries, shapes, rng=None, sample=None, extra=None):
+    """variants: source key prefixes (field name, or field|alias chain) that end up as the same written field/key;
+    chain: modifier ids after the field ('' or e.g. 're'); returns list of mappings (insertion order matters)"""
+    slots = [(v, a) for v in variants for a in (False, True)]
+    combos = []
+    for sub in itertools.combinations(slots, n_entries):
+        for order in itertools.permutations(sub):
+            for shp in itertools.product(shapes, repeat=n_entries):
+                combos.append((order, shp))
+    if sample is not None and len(combos) > sample:
+        combos = rng.sample(combos, sample)
+    out = []
+    for order, shp in combos:
+        m = {}
+        if extra and (rng is None or rng.random() < 0.5): m.update(extra)
+        for i, ((v, a), sh) in enumerate(zip(order, shp)):
+            key = v + ("|" + chain if chain and "|" not in v else "") + ("|all" if a else "")
+            base = "v%d" % i + (".*" if "re" in key.split("|") else "")
+            val = {1: base, 2: [base, base + "x"], 11: [base], 0: [], 3: [base, base + "x", base + "y"]}[sh]
+            m[key] = val
+        out.append(m)
+    return out
+
+
+ALIAS_VARIANTS = ["f|re|i|m", "f|re|ignorecase|m", "f|re|i|multiline", "f|re|ignorecase|multiline"]
+ALIAS_NEQ = ["f|re|i|neq", "f|re|ignorecase|neq"]
+
+
+def det_collisions(tier, rng):
+    out = []
+    out += collision_mappings(ALIAS_VARIANTS[:2], "", 2, [1, 2, 11, 0, 3])
+    out += collision_mappings(ALIAS_VARIANTS[:2], "", 3, [1, 2])
+    out += collision_mappings(ALIAS_VARIANTS, "", 3, [1, 2, 11], rng, 300 if tier == "quick" else 2500, extra={"g": "other"})
+    out += collision_mappings(ALIAS_VARIANTS, "", 4, [1, 2], rng, 150 if tier == "quick" else 1200)
+    out += collision_mappings(ALIAS_NEQ, "", 2, [1, 2], rng, 40)
+    return [{"sel": m, "condition": "sel"} for m in out]
+
+
 def gen_det(tier, rng):
-    out = [{"det": d} for d in ALIAS_CASES + merge_cases()]
+    out = [{"det": d} for d in ALIAS_CASES + merge_cases() + det_collisions(tier, rng)]
     vals = CORE + (HOSTILE if tier != "quick" else HOSTILE[:14])
     for ch in CHAINS:
         for v in vals:
@@ -475,6 +516,39 @@ HIST_DETS = [
 ]
 
 
+MAP3 = {"type": "field_name_mapping", "mapping": {"s1": "t", "s2": "t", "s3": "t"}}
+PREFIX3 = {"type": "field_name_prefix_mapping", "mapping": {"s": "t", "t": "t"}}     # s1, s2, s3 -> t1, t2, t3: no collision
+HIST_CHAINS = ["", "re", "contains", "cased", "re|i", "startswith", "neq", "contains|neq", "base64", "windash"]
+
+
+def hist_collisions(tier, rng):
+    """key collisions produced by mapping several fields to one: existing |all key scalar / list, colliding plain
+    keys, three- and four-way collisions, different modifier chains in one mapping, negated items"""
+    ms = []
+    fields = ["t", "s1", "s2"]
+    q = tier == "quick"
+    for ch in (HIST_CHAINS[:2] if q else HIST_CHAINS[:4]):
+        ms += collision_mappings(fields, ch, 2, [1, 2, 11, 0], rng, 250 if q else None)
+        ms += collision_mappings(fields, ch, 3, [1, 2], rng, (960 if ch == "" else 300) if q else None)
+    for ch in HIST_CHAINS[2:]:
+        ms += collision_mappings(fields + ["s3"], ch, 3, [1, 2, 11], rng, 40 if q else 700, extra={"u": "other"})
+    ms += collision_mappings(fields + ["s3"], "", 4, [1, 2], rng, 100 if q else 1500)
+    ms += collision_mappings(fields + ["s3"], "re", 4, [1, 2, 11], rng, 100 if q else 1500, extra={"u|re": "o.*"})
+    out = [{"det": {"sel": m, "condition": "sel"}, "tr": MAP3, "vars": {}} for m in ms]
+    # different chains in one mapping: two independent collision groups and non-colliding neighbours
+    for _ in range(100 if tier == "quick" else 1500):
+        c1, c2 = rng.sample(HIST_CHAINS, 2)
+        a = rng.choice(collision_mappings(fields, c1, rng.choice([2, 3]), [1, 2], rng, 20))
+        b = rng.choice(collision_mappings(["s3", "t"], c2, 2, [1, 2], rng, 20))
+        items = list(a.items()) + [(k, v) for k, v in b.items() if k not in a]
+        rng.shuffle(items)
+        out.append({"det": {"sel": dict(items), "condition": "sel"}, "tr": MAP3, "vars": {}})
+    # the seeded shape, spelled out: single-valued |all item + two single-valued items of other fields with the same chain
+    for order in itertools.permutations([("t|re|all", "alpha.*"), ("s1|re", "beta.*"), ("s2|re", "gamma.*")]):
+        out.append({"det": {"sel": dict(order), "condition": "sel"}, "tr": MAP3, "vars": {}})
+    return out
+
+
 def gen_hist(tier, rng):
     out = []
     for d in HIST_DETS:
@@ -485,6 +559,7 @@ def gen_hist(tier, rng):
             for v2 in MERGE_VALUES:
                 out.append({"det": {"sel": {"f" + al: v1, "g" + al: v2, "c|all": "q"}, "condition": "sel"}, "tr": TRS[0], "vars": {}})
                 out.append({"det": {"sel": {"f" + al: v1, "g" + al: v2}, "condition": "sel"}, "tr": TRS[0], "vars": {}})
+    out += hist_collisions(tier, rng)
     n = 150 if tier == "quick" else 5000
     tries = 0
     while n > 0 and tries < 100000:
